@@ -70,9 +70,12 @@ Definition dec_bitmap (n : Z) (d : dstate) : result (list bool) :=
 Definition dec_prims : prims dstate :=
   mkPrims dstate dec_numeric dec_string dec_codeflag dec_new_refval dec_constant dec_factor dec_bitmap.
 
+(* switch_subset_context: select the value list of subset i *)
+Definition dec_switch (i : nat) (d : dstate) : dstate := mkD (d_r d) (d_vals d) i.
+
 (* Decoder.process_template_data for uncompressed data *)
 Definition decode_uncompressed (T : descs) (nsub : nat) (bits : reader)
   : result (list subset_out * list (list value) * reader) :=
-  let* (outs, d) := run_subsets dec_prims T (fun i d => mkD (d_r d) (d_vals d) i) 0 nsub
+  let* (outs, d) := run_subsets dec_prims T dec_switch 0 nsub
                       (mkD bits (repeat [] nsub) 0) [] in
   Ok (outs, d_vals d, d_r d).
